@@ -676,6 +676,13 @@ class EngineRun:
             st["active_graphs"] = list(self.world["agents"].get(agent, sorted(self.world["graphs"])))
             ctx = make_ctx(self.cfg, agent, op.get("turn_id", 0), op.get("now_ms", T0_MS), with_now=op.get("with_now", True),
                            style=op.get("ctx_style", getattr(self, "ctx_style", "both")), now_ms_float=bool(op.get("now_ms_float")))
+            prev = getattr(self, "last_ctx", None)
+            if op.get("reuse_ctx") and prev is not None:
+                # a driver that keeps one context object and refreshes its public fields each turn:
+                # whatever the engine stashed on it last turn is still there
+                for pk, pv in list(vars(prev).items()):
+                    if pk.startswith("_") and pk != "_dry_run_until_t4" and pk not in vars(ctx):
+                        setattr(ctx, pk, pv)
             for extra_k, extra_v in (op.get("ctx") or {}).items():
                 setattr(ctx, extra_k, extra_v)
             self.last_ctx = ctx
